@@ -464,32 +464,87 @@ func GenVerbStory(r *rand.Rand, c *Case) {
 		}
 	}
 	c.Ops = append(c.Ops, Op{Kind: "begin"})
-	for k := 0; k < 3+r.IntN(4); k++ {
-		m := c.Methods[r.IntN(len(c.Methods))]
-		switch r.IntN(5) {
-		case 0, 1:
-			c.Ops = append(c.Ops, Op{Kind: "handle", Method: m, Pattern: c.Pool[r.IntN(len(c.Pool))]})
-		case 2:
-			// remove the verb's root: delete all its routes
-			for _, p := range count[m] {
-				c.Ops = append(c.Ops, Op{Kind: "delete", Method: m, Pattern: p})
-			}
-			count[m] = nil
-		case 3:
-			c.Ops = append(c.Ops, Op{Kind: "truncate", Methods: []string{m}})
-			count[m] = nil
-		default:
-			if len(count[m]) > 0 {
-				c.Ops = append(c.Ops, Op{Kind: "update", Method: m, Pattern: count[m][0]})
-			}
-		}
-	}
+	c.Ops = append(c.Ops, rootSteps(r, c, count)...)
 	if r.IntN(2) == 0 {
 		c.Ops = append(c.Ops, Op{Kind: "abort"})
 	} else {
 		c.Ops = append(c.Ops, Op{Kind: "commit"})
 	}
 	GenOps(r, c, len(c.Ops)+r.IntN(10), 1, false)
+}
+
+// GenRootProgram appends the transaction part of a verb story (without begin/end) as a program for monitors that
+// enumerate endings themselves; count maps every method to the patterns it is believed to hold.
+func GenRootProgram(r *rand.Rand, c *Case) {
+	count := map[string][]string{}
+	for _, op := range c.Ops {
+		if op.Kind == "handle" || op.Kind == "handleroute" {
+			count[op.Method] = append(count[op.Method], op.Pattern)
+		}
+	}
+	c.Ops = append(c.Ops, rootSteps(r, c, count)...)
+}
+
+// rootSteps: half of the time three directed steps - a write under verb B, the removal of the root of a verb A that
+// was registered BEFORE B (all its routes deleted one by one), a write under a verb C registered after A - otherwise
+// 3-6 random steps of the same kinds.
+func rootSteps(r *rand.Rand, c *Case, count map[string][]string) []Op {
+	var out []Op
+	if len(c.Methods) >= 3 && r.IntN(2) == 0 {
+		ia := r.IntN(len(c.Methods) - 1)
+		// prefer a verb whose root really goes away with its last route (the four common verbs keep theirs)
+		for try := 0; try < 4; try++ {
+			switch c.Methods[ia] {
+			case "GET", "POST", "PUT", "DELETE":
+				ia = r.IntN(len(c.Methods) - 1)
+			}
+		}
+		ib := ia + 1 + r.IntN(len(c.Methods)-ia-1)
+		ic := ia + 1 + r.IntN(len(c.Methods)-ia-1)
+		a, b, cc := c.Methods[ia], c.Methods[ib], c.Methods[ic]
+		out = append(out, Op{Kind: []string{"handle", "update"}[r.IntN(2)], Method: b, Pattern: pickOr(r, count[b], c.Pool)})
+		if r.IntN(4) == 0 {
+			out = append(out, Op{Kind: "truncate", Methods: []string{a}})
+		} else {
+			for _, p := range count[a] {
+				out = append(out, Op{Kind: "delete", Method: a, Pattern: p})
+			}
+		}
+		count[a] = nil
+		out = append(out, Op{Kind: "handle", Method: cc, Pattern: c.Pool[r.IntN(len(c.Pool))]})
+		if r.IntN(2) == 0 {
+			out = append(out, Op{Kind: "handle", Method: a, Pattern: c.Pool[r.IntN(len(c.Pool))]})
+		}
+		return out
+	}
+	for k := 0; k < 3+r.IntN(4); k++ {
+		m := c.Methods[r.IntN(len(c.Methods))]
+		switch r.IntN(5) {
+		case 0, 1:
+			out = append(out, Op{Kind: "handle", Method: m, Pattern: c.Pool[r.IntN(len(c.Pool))]})
+		case 2:
+			// remove the verb's root: delete all its routes
+			for _, p := range count[m] {
+				out = append(out, Op{Kind: "delete", Method: m, Pattern: p})
+			}
+			count[m] = nil
+		case 3:
+			out = append(out, Op{Kind: "truncate", Methods: []string{m}})
+			count[m] = nil
+		default:
+			if len(count[m]) > 0 {
+				out = append(out, Op{Kind: "update", Method: m, Pattern: count[m][0]})
+			}
+		}
+	}
+	return out
+}
+
+func pickOr(r *rand.Rand, from, pool []string) string {
+	if len(from) > 0 {
+		return from[r.IntN(len(from))]
+	}
+	return pool[r.IntN(len(pool))]
 }
 
 // ErrClass maps a fox error to the model's vocabulary.
